@@ -27,7 +27,11 @@ RULE = ("case = (functional/method, function or operator kind, history); non-tri
         "repetitions of the history completed (each executes the real functional and, per history, its backward passes) and K+1 census "
         "samples were taken")
 MIN_NONTRIVIAL = {"quick": 250, "thorough": 1200}
-REQUIRED_COUNTERS = {"quick": {"census_samples": 1000, "singular_fallback_taken": 8}, "thorough": {"census_samples": 5000, "singular_fallback_taken": 20}}
+REQUIRED_COUNTERS = {"quick": {"census_samples": 1000, "singular_fallback_taken": 8, "kept_objects_checked": 40},
+                     "thorough": {"census_samples": 5000, "singular_fallback_taken": 20, "kept_objects_checked": 200}}
+RULE += ("; group held (vf/c19_extra.py): objects the user keeps across calls - a function wrapper made once, a Jacobian operator with a "
+         "non-differentiable argument used as A of solve, float32 states of the adaptive integrators: growth census plus the set of tensors "
+         "reachable from the kept object before / after the calls")
 ASSUMPTIONS = ["the scripted-function representation is excluded (the TorchScript profiling executor keeps its own tensors for the first runs)",
                "K=3 repetitions after 2 warm-up calls; growth must be strictly positive in each of the last two repetitions to be called a leak",
                "single-threaded worker; the census is process-local and taken with gc disabled (gc.collect() only between cases)"]
@@ -81,6 +85,8 @@ def cases(seed, tier):
         for h in HISTORIES[:3]:
             out.append({"group": "sampled", "cls": cls, "history": h, "seed": sub_seed(seed, "c19s", k)})
             k += 1
+    from vf import c19_extra
+    out.extend(c19_extra.cases(seed, tier))
     return out
 
 
@@ -246,6 +252,9 @@ def make_call(desc):
 
 
 def run_case(desc):
+    if desc.get("group") == "held":
+        from vf import c19_extra
+        return c19_extra.run_case(desc)
     obs = Obs(desc)
     mech_cfg = ":".join(str(desc.get(k)) for k in ("functional", "kind", "method", "opkind", "emode", "withM", "cls", "rep") if desc.get(k) is not None)
     mech = "%s:%s:%s" % (desc["group"], mech_cfg, desc["history"])
